@@ -9,6 +9,8 @@ import time
 def write_replay(prop, unit_res, failure, root, build, replay_dir):
     name = re.sub(r'[^A-Za-z0-9_.+-]', '_', failure['obligation'])[:120]
     path = os.path.join(replay_dir, '%s-%s.json' % (prop, name))
+    if not failure.get('concrete_input') and unit_res.get('witnesses'):
+        witness_search(unit_res, failure, root, build)
     found = bool(failure.get('concrete_input'))
     doc = {
         'property': prop,
@@ -58,3 +60,40 @@ def native_replay(u, h, vals, root, build):
         return {'ran': False, 'exit': p.returncode, 'error': 'replay binary could not run this harness: ' + (p.stderr or p.stdout)[-500:]}
     return {'ran': True, 'reproduced': p.returncode == 101, 'exit': p.returncode,
             'cmd': ' '.join([exe, u['name'], h['name']] + hexvals), 'stdout': p.stdout[-1500:], 'stderr': p.stderr[-1500:]}
+
+
+def witness_search(unit_res, failure, root, build):
+    """Verus gives no counterexample: run the unit's registered concrete witness programs
+    (real /repo crates, /verif/replay) whose pattern matches the failed obligation; a
+    program that exits 1 is a failing input for the real code."""
+    import shutil
+    import subprocess
+    cands = [w for w in unit_res['witnesses'] if re.search(w['match'], failure['obligation'])]
+    if not cands:
+        return
+    crate = os.path.join(root, 'replay')
+    env = dict(os.environ)
+    env['CARGO_NET_OFFLINE'] = 'true'
+    env['CARGO_TARGET_DIR'] = os.path.join(build, 'replay-target')
+    env['RUSTFLAGS'] = '--cfg isographlabs_isograph_verif'
+    env['RUST_BACKTRACE'] = '0'
+    shutil.copy('/repo/Cargo.lock', os.path.join(crate, 'Cargo.lock'))
+    tried = []
+    for w in cands:
+        b = subprocess.run(['cargo', 'build', '--offline', '--bin', w['cmd'][0]], cwd=crate, env=env, capture_output=True, text=True)
+        if b.returncode != 0:
+            tried.append({'cmd': w['cmd'], 'error': 'does not build: ' + b.stderr[-800:]})
+            continue
+        exe = os.path.join(env['CARGO_TARGET_DIR'], 'debug', w['cmd'][0])
+        os.makedirs(os.path.join(build, 'replay-work'), exist_ok=True)
+        try:
+            p = subprocess.run([exe] + w['cmd'][1:], capture_output=True, text=True, timeout=300, env=env, cwd=os.path.join(build, 'replay-work'))
+        except subprocess.TimeoutExpired:
+            tried.append({'cmd': w['cmd'], 'error': 'timeout'})
+            continue
+        tried.append({'cmd': w['cmd'], 'exit': p.returncode, 'stdout': p.stdout[-1200:]})
+        if p.returncode == 1:
+            failure['concrete_input'] = {'witness_program': '/verif/replay/src/bin/%s.rs' % w['cmd'][0], 'args': w['cmd'][1:]}
+            failure['replay_result'] = {'ran': True, 'reproduced': True, 'exit': 1, 'stdout': p.stdout[-1500:]}
+            break
+    failure['witness_search'] = tried
